@@ -126,9 +126,25 @@ func vC22Model(tr *lib.Trace, r *rand.Rand, n int) {
 		g.emitTables(tr)
 		for i := 0; i < 8 && done < n; i++ {
 			q := g.build(1 + r.Intn(4))
-			if r.Intn(10) == 0 {
+			switch r.Intn(10) {
+			case 0:
 				if s := g.singletonJoin(); s != nil && g.valid(s) {
 					q = s
+				}
+			case 1:
+				// a restriction on a (deep) key/index prefix of the widest table, alone or under
+				// one more operator
+				t := g.tableNode()
+				for _, o := range g.tables {
+					if len(o.keys[0]) > len(t.tbl.keys[0]) {
+						t = &vnode{op: "table", tbl: o, cols: append([]vcol{}, o.cols...)}
+					}
+				}
+				if w := g.indexWhere(t, false); w != nil && g.valid(w) {
+					q = w
+					if u := g.unary(w, vunaryKinds[r.Intn(len(vunaryKinds))]); u != nil && r.Intn(2) == 0 && g.valid(u) {
+						q = u
+					}
 				}
 			}
 			if r.Intn(6) == 0 {
